@@ -53,7 +53,7 @@ CHECKS = {
         "design_ref": "DESIGN.md §5 C03",
     },
     "C04": {
-        "level": "model_checking", "shards": 16, "deadline_quick": 150, "deadline_thorough": 1800,
+        "level": "model_checking", "shards": 16, "deadline_quick": 240, "deadline_thorough": 1800,
         "engine": "E-WORLD",
         "technique": "explicit-state model checking of the implementation: one BFS by replay per validator configuration (the product of placements, modes and verdicts), asynchronous validators gated so that every completion order is a history",
         "rule": WORLD_RULE + "; scenarios = every vector of up to k validators (default/topic x inline/asynchronous x {Accept, Reject, Ignore, out-of-range}) plus timeout shapes",
